@@ -406,7 +406,7 @@ pub fn run(tier: Tier) -> i32 {
     // frequency = 0 is a configuration value the builder accepts
     {
         st.evaluations += 1;
-        let net = Net { n: 2, edges: vec![(0, 1, 1.0)] };
+        let net = Net { n: 2, edges: vec![(0, 1, 1.0)], xy: None };
         let w = World::distance(net);
         let term = Term::RuntimeMs { limit_ms: 3_600_000, frequency: 0 };
         if let Ok(r) = run_with(&w, &term, &Algo::Dijkstra, &Orient::Vertex { o: 0, d: Some(1) }, false) {
